@@ -1,6 +1,7 @@
 /-
-Integer sampling on top of the byte generator (src/bn/relic_bn_util.c): bn_rand fills `digits` digits from the stream (host byte order)
-and masks the top digit; bn_rand_mod draws bits(b) + 40 bits, reduces modulo b and draws again while the residue is zero.
+Integer sampling on top of the byte generator (src/bn/relic_bn_util.c, src/fp/relic_fp_util.c): bn_rand fills `digits` digits from the
+stream (host byte order) and masks the top digit; bn_rand_mod draws bits(b) + 40 bits, reduces modulo b and draws again while the residue
+is zero; fp_rand fills RLC_FP_DIGS digits, masks the top digit to RLC_FP_BITS and subtracts the prime while the value is not below it.
 The byte source is a parameter (the DRBG model of Model/Drbg.lean in the driver).
 -/
 namespace Relic.Model.RandInt
@@ -10,27 +11,34 @@ def valDigits (w : Nat) : List Nat → Nat
   | [] => 0
   | d :: ds => d + 2 ^ w * valDigits w ds
 
-/-- bn_rand: `digits·(w/8)` bytes → digits (little-endian bytes inside a digit), top digit masked to `bits % w` bits; none = the
-    request does not fit the capacity or the generator refused -/
-def bnRand {σ : Type} (draw : σ → Nat → Option (List Nat × σ)) (w cap : Nat) (s : σ) (bits0 : Nat) : Option (List Nat × σ) :=
-  let digits := bits0 / w + (if bits0 % w > 0 then 1 else 0)
-  let bits := bits0 % w
+/-- digit `i` of a byte buffer read as an array of `bpd`-byte digits (little-endian bytes inside a digit: the cast
+    `(uint8_t *)a->dp` on the little-endian host) -/
+def digitOf (bytes : List UInt8) (bpd i : Nat) : Nat :=
+  (List.range bpd).foldl (fun acc j => acc + (bytes.getD (i * bpd + j) 0).toNat * 256 ^ j) 0
+
+/-- the first `n` digits of the buffer -/
+def digitsOf (bytes : List UInt8) (w n : Nat) : List Nat := (List.range n).map (digitOf bytes (w / 8))
+
+/-- `if (bits > 0) dp[used - 1] &= ((dig_t)1 << bits) - 1` -/
+def maskTop (dp : List Nat) (bits : Nat) : List Nat :=
+  if bits > 0 ∧ dp.length > 0 then dp.set (dp.length - 1) (dp.getD (dp.length - 1) 0 % 2 ^ bits) else dp
+
+/-- digits needed for a value of `bits` bits (RLC_RIP and the `+= (bits > 0)`) -/
+def digitsFor (w bits : Nat) : Nat := bits / w + (if bits % w > 0 then 1 else 0)
+
+/-- bn_rand: `digits·(w/8)` bytes → digits, top digit masked to `bits % w` bits; none = the
+    request does not fit the capacity (bn_grow) or the generator refused -/
+def bnRand {σ : Type} (draw : σ → Nat → Option (List UInt8 × σ)) (w cap : Nat) (s : σ) (bits0 : Nat) : Option (List Nat × σ) :=
+  let digits := digitsFor w bits0
   if digits > cap then none else
   match draw s (digits * (w / 8)) with
   | none => none
-  | some (bytes, s') =>
-    let dp := (List.range digits).map fun i =>
-      (List.range (w / 8)).foldl (fun acc j => acc + bytes.getD (i * (w / 8) + j) 0 * 256 ^ j) 0
-    let dp := if bits > 0 ∧ digits > 0 then dp.set (digits - 1) (dp.getD (digits - 1) 0 % 2 ^ bits) else dp
-    some (dp, s')
+  | some (bytes, s') => some (maskTop (digitsOf bytes w digits) (bits0 % w), s')
 
 def bitLen (n : Nat) : Nat := if n = 0 then 0 else Nat.log2 n + 1
 
-/-- digits needed for a value of `bits` bits -/
-def digitsFor (w bits : Nat) : Nat := bits / w + (if bits % w > 0 then 1 else 0)
-
 /-- bn_rand_mod for a bound b: the rejection loop (fuel = number of draws allowed; the C loop is unbounded) -/
-def bnRandMod {σ : Type} (draw : σ → Nat → Option (List Nat × σ)) (w cap b : Nat) : Nat → σ → Option Nat
+def bnRandMod {σ : Type} (draw : σ → Nat → Option (List UInt8 × σ)) (w cap b : Nat) : Nat → σ → Option Nat
   | 0, _ => none
   | fuel + 1, s =>
     -- the reduction (bn_mod → bn_div) needs one digit more than the drawn value: refused with a precision error otherwise
@@ -40,5 +48,26 @@ def bnRandMod {σ : Type} (draw : σ → Nat → Option (List Nat × σ)) (w cap
     | some (dp, s') =>
       let r := valDigits w dp % b
       if r = 0 then bnRandMod draw w cap b fuel s' else some r
+
+/-- `while (dv_cmp(a, p) != RLC_LT) fp_subm_low(a, a, p)` (no borrow occurs because a ≥ p, so the low-level routine returns a − p) -/
+def subWhile (p : Nat) : Nat → Nat → Nat
+  | 0, a => a
+  | fuel + 1, a => if a < p then a else subWhile p fuel (a - p)
+
+/-- fp_rand: RLC_FP_DIGS·(w/8) bytes → digits, top digit masked to `fpBits % w` bits, then the subtraction loop (the fuel `a + 1` is
+    never exhausted for p > 0: Lemmas/RandInt.subWhile_eq_mod); the result is the raw digit vector (not a Montgomery conversion) -/
+def fpRand {σ : Type} (draw : σ → Nat → Option (List UInt8 × σ)) (w fpDigs fpBits p : Nat) (s : σ) : Option (Nat × σ) :=
+  match draw s (fpDigs * (w / 8)) with
+  | none => none
+  | some (bytes, s') =>
+    let a := valDigits w (maskTop (digitsOf bytes w fpDigs) (fpBits % w))
+    some (subWhile p (a + 1) a, s')
+
+/-- fb_rand: RLC_FB_DIGS·(w/8) bytes → digits, top digit masked to `fbBits % w` bits (no reduction: every bit pattern below the degree
+    is a field element) -/
+def fbRand {σ : Type} (draw : σ → Nat → Option (List UInt8 × σ)) (w fbDigs fbBits : Nat) (s : σ) : Option (List Nat × σ) :=
+  match draw s (fbDigs * (w / 8)) with
+  | none => none
+  | some (bytes, s') => some (maskTop (digitsOf bytes w fbDigs) (fbBits % w), s')
 
 end Relic.Model.RandInt
